@@ -153,7 +153,7 @@ theorem parsers_silent_esc (cfg : Cfg) (st : PState) (hk : keyMatches cfg.keys [
   · exact parseFunctionKey_silent _ _ _ hk
   · left; rfl
   · left; rfl
-  · left; rfl
+  · left; simp [parseSgrMouse, sgrRun, sgrStepV, sgrKnown, sgrStep]
   · left; unfold parseClipboardV; cases cfg.clipFixed <;> rfl
 
 /-- **lone_esc**: a lone ESC yields the Esc key once the timeout has passed (table without empty sequences) -/
